@@ -199,8 +199,10 @@ def feasible_paths(cfg, start, ends, limit=3000, max_visits=1, ignore_exc=True):
         facts_in = facts
         if node.kind == "branch" and node.tag not in ("iter", "exhausted"):
             t = src(node.ast)
-            if t in facts and facts[t] != node.value:
-                return      # contradiction
+            from sa.cfg import equiv_forms
+            for t2, v2 in equiv_forms(t, node.value):
+                if t2 in facts and facts[t2] != v2:
+                    return      # contradiction (also through an equivalent spelling of the same test)
             facts = dict(facts)
             facts[t] = node.value
         elif node.kind in ("stmt", "loop", "with"):
@@ -231,7 +233,8 @@ def feasible_paths(cfg, start, ends, limit=3000, max_visits=1, ignore_exc=True):
         count[n] = count.get(n, 0) + 1
         if n in ends and len(path) > 1:
             # facts holding when the end node is *reached* (its own stores do not count)
-            out.append((list(path), dict(facts if node.kind == "branch" else facts_in)))
+            from sa.cfg import expand_equiv
+            out.append((list(path), expand_equiv(dict(facts if node.kind == "branch" else facts_in))))
         else:
             for s in cfg.succs(n, ignore_exc):
                 if count.get(s, 0) < max_visits:
